@@ -30,7 +30,7 @@ class PresGen:
             args = [r.choice([prim("i32"), prim("String"), Ty("vec", args=[prim("u8")]), Ty("opt", args=[prim("bool")])]) for _ in it.params]
             base = Ty("user", item=it, args=args)
             out.append(("user", base, it))
-            wrap = r.choice(["opt", "vec", "map", "box", None, None])
+            wrap = r.choice(["opt", "vec", "map", "box", "arr", "arr", None, None])
             if wrap == "opt":
                 out.append(("container", Ty("opt", args=[base]), it))
             elif wrap == "vec":
@@ -39,6 +39,12 @@ class PresGen:
                 out.append(("container", Ty("map", "HashMap", args=[prim("String"), base]), it))
             elif wrap == "box":
                 out.append(("container", Ty("box", args=[base]), it))
+            elif wrap == "arr":
+                # fixed-size arrays around the tuple limit (64): a tuple up to it, an array beyond
+                n = r.choice([0, 1, 2, 3, 63, 64, 64, 65])
+                inner = r.choice([base, base, Ty("opt", args=[base])])
+                arr = Ty("arr", args=[inner], n=n)
+                out.append(("container", r.choice([arr, arr, Ty("vec", args=[arr]), Ty("opt", args=[arr])]), it))
         return out
 
     def build(self):
